@@ -81,6 +81,10 @@ type object struct {
 	// graph record is projected into the terms of the model (nil: no graph record)
 	roots []any
 	proj  any
+	// inputs on which a run of this object RETURNS WHILE SOME OF ITS TASKS ARE STILL EXECUTING (eager
+	// collection: a workflow returns on the first failing node); objects that have some get a faulted
+	// and a healthy spec in every case, and the sequential fault scenario (main.go)
+	faultIn []int
 }
 
 // lopt is the per-call option of harness lambdas: it carries the tag of the call that passed it.
@@ -112,6 +116,8 @@ func errClass(err error) string {
 		return "maxsteps"
 	case errors.As(err, &ne):
 		return "node:" + ne.key
+	case strings.Contains(err.Error(), "panic error:"):
+		return "panic" // safe.NewPanicErr: a panic of a node, recovered by the engine (its text carries a stack trace)
 	case strings.Contains(err.Error(), "node ") && strings.Contains(err.Error(), " failed"):
 		i := strings.Index(err.Error(), "node ")
 		j := strings.Index(err.Error()[i:], " failed")
